@@ -433,6 +433,10 @@ func genUCfg(r *Rng) UCfg {
 	for j := 0; j < nc; j++ {
 		c.Custom = append(c.Custom, Pick(r, umKeys))
 	}
+	if r.Chance(1, 6) {
+		// two distinct custom keys of one name
+		c.Custom = append(c.Custom, Pick(r, [][]int{{2, 39}, {39, 2}, {2, 30}, {0, 29}, {0, 1}})...)
+	}
 	c.Builtin = r.Chance(1, 4)
 	if r.Chance(1, 2) {
 		for i := range umSentinels {
